@@ -336,7 +336,7 @@ void carquet_sse_prefix_sum_i32(int32_t* values, int64_t count, int32_t initial)
 
     /* Handle remaining values */
     for (; i < count; i++) {
-        sum += values[i];
+        sum = (int32_t)((uint32_t)sum + (uint32_t)values[i]);  /* wrap-around, no signed overflow */
         values[i] = sum;
     }
 }
@@ -369,7 +369,7 @@ void carquet_sse_prefix_sum_i64(int64_t* values, int64_t count, int64_t initial)
 
     /* Handle remaining values */
     for (; i < count; i++) {
-        sum += values[i];
+        sum = (int64_t)((uint64_t)sum + (uint64_t)values[i]);  /* wrap-around, no signed overflow */
         values[i] = sum;
     }
 }
